@@ -943,6 +943,18 @@ def gen_file(rng, malformed, customs=(), stats=None, dstats=None):
         line += "".join(f + (rng.choice(SEPS) if k < len(t) - 2 else "") for k, f in enumerate(t[1:]))
         if rng.random() < 0.2:
             line += rng.choice([" ", "  ", "\t", "\xa0"])
+        if rng.random() < 0.07 and len(t) > 2:
+            # a commented-out / renamed copy of a supported line (other numbers): the tag is inside the line, not at its start
+            t2 = list(t)
+            t2[-1] = "7.5"
+            pre = rng.choice(["# ", "#", "//", "// ", "DISABLED_", "x", "; ", "%"])
+            out.insert(len(out) if rng.random() < 0.5 else max(0, len(out) - 1), pre + t2[0] + " " + " ".join(t2[1:]))
+            n_junk += 1
+            out.append(line)
+            if rng.random() < 0.5:
+                out.append(pre + t2[0] + " " + " ".join(t2[1:]))
+                n_junk += 1
+            continue
         out.append(line)
     while rng.random() < 0.3:
         out.append(rng.choice(JUNK) if rng.random() < 0.6 else rng.choice(BLANK))
